@@ -155,6 +155,30 @@ def evaluate3(f, env: dict) -> Optional[bool]:
     return False if all(v is False for v in vals) else None
 
 
+def with_flags(fn, valuation):
+    """Extend a valuation over atoms to boolean FLAG locals: a name assigned exactly once in `fn` from a condition
+    (`is_list = t == "bytes[]"`) has the truth value of that condition."""
+    from .core import single_assign_aliases
+
+    flags = {k: v for k, v in single_assign_aliases(fn).items() if isinstance(v, (ast.Compare, ast.BoolOp, ast.UnaryOp, ast.Call))}
+    busy = set()
+
+    def val(atom):
+        r = valuation(atom)
+        if r is not None:
+            return r
+        if atom in flags and atom not in busy:
+            busy.add(atom)
+            try:
+                f = formula(flags[atom])
+                return evaluate3(f, {a: v for a, v in ((a, val(a)) for a in atoms(f)) if v is not None})
+            finally:
+                busy.discard(atom)
+        return None
+
+    return val
+
+
 def reachable_assuming(cfg, start: int, valuation) -> set:
     """CFG nodes reachable from start when every test whose truth value is determined by `valuation(atom_text) -> bool|None`
     takes only the matching edge."""
